@@ -187,6 +187,18 @@ def work_filter(job: Tuple[str, str, Tuple[str, ...]]) -> Dict[str, Any]:
         if r1.returncode or r2.returncode:
             res["violations"].append({"what": f"{res['case']}: compile failed: {r1.stderr[-150:]} {r2.stderr[-150:]}", "payload": {"kind": "cli", "files": schema(()), "lang": lang, "subset": list(subset)}, "confirmed": True, "info": {"kind": "filter"}})
             return res
+        if lang == "go":
+            # the filtered file is still a well-formed Go file (imports needed by the structs that stay are still there)
+            from .. import gostatic
+
+            res["obligations"] += 1
+            try:
+                probs = gostatic.check(open(os.path.join(filt, "main_bp.go")).read())
+            except Inconclusive as e:
+                probs = []
+                res["inconclusive"].append(f"{res['case']}: {e}")
+            if probs:
+                res["violations"].append(_fv(res, f"the Go file generated with -F is not well formed: {'; '.join(probs[:2])}", lang, subset))
         # the list may be written with blanks around the commas (and a trailing comma): the same names, the same output
         if len(subset) >= 1:
             for si, spelled in enumerate((", ".join(subset), " " + " , ".join(subset) + " ", ",".join(subset) + ",")):
